@@ -7,7 +7,15 @@ use std::sync::atomic::{AtomicBool, AtomicU64, Ordering};
 use std::sync::Arc;
 use std::time::{Duration, Instant};
 
-pub const REPO: &str = "/repo";
+/// the repository under verification; SEED_VERIF_REPO overrides it (used only by the
+/// seeded-change matrix tool, which works on a scratch copy)
+pub fn repo() -> String {
+    std::env::var("SEED_VERIF_REPO").unwrap_or_else(|_| "/repo".to_string())
+}
+
+pub fn subject_target() -> String {
+    std::env::var("SEED_VERIF_SUBJECT_TARGET").unwrap_or_else(|_| format!("{}/subject", BUILD_DIR))
+}
 pub const BUILD_DIR: &str = "/verif/.build";
 
 #[derive(Clone, Debug, PartialEq, Eq, Hash)]
@@ -62,11 +70,11 @@ pub struct Req<'a> {
 
 /// Build the subject from /repo's working tree with the hook enabled.
 pub fn build_subject() -> Result<PathBuf, String> {
-    let target = format!("{}/subject", BUILD_DIR);
+    let target = subject_target();
     let t0 = Instant::now();
     let out = Command::new("cargo")
         .args(["build", "--release", "--offline"])
-        .current_dir(REPO)
+        .current_dir(repo())
         .env("CARGO_NET_OFFLINE", "true")
         .env("RUSTFLAGS", "--cfg seed_verif")
         .env("CARGO_TARGET_DIR", &target)
@@ -92,8 +100,8 @@ pub fn build_subject() -> Result<PathBuf, String> {
 }
 
 pub fn repo_commit() -> (String, bool) {
-    let h = Command::new("git").args(["-C", REPO, "rev-parse", "--short", "HEAD"]).output();
-    let d = Command::new("git").args(["-C", REPO, "status", "--porcelain"]).output();
+    let h = Command::new("git").args(["-C", &repo(), "rev-parse", "--short", "HEAD"]).output();
+    let d = Command::new("git").args(["-C", &repo(), "status", "--porcelain"]).output();
     let hs = h.map(|o| String::from_utf8_lossy(&o.stdout).trim().to_string()).unwrap_or_default();
     let dirty = d.map(|o| !o.stdout.is_empty()).unwrap_or(false);
     (hs, dirty)
